@@ -404,10 +404,29 @@ func represent3(key, ti int, rng *rand.Rand, st *repStats) spec.V3 {
 	var eff [spec.N3]int
 	eff[spec.MAV], eff[spec.MAC], eff[spec.MPR], eff[spec.MUI], eff[spec.MS] = av, ac, pr, ui, s
 	eff[spec.MC], eff[spec.MI], eff[spec.MA] = cia/9, cia/3%3, cia%3
+	// every tenth temporal combination represents the whole group uniformly: all eight modified metrics written
+	// and restating equal base metrics / none written / all eight written over random base metrics - so that
+	// every effective tuple is also seen in these three forms, which independent coin flips give with
+	// probability 2^-8 only
+	uniform := -1
+	if ti%10 == 3 {
+		uniform = ti / 10 % 3
+	}
 	for mod := spec.MAV; mod <= spec.MA; mod++ {
 		b := modBase[mod]
 		nb := len(spec.V3Metrics[b].Codes)
-		if rng.IntN(2) == 0 {
+		viaBase := rng.IntN(2) == 0
+		switch uniform {
+		case 0:
+			v.M[mod] = int8(eff[mod] + 1)
+			v.M[b] = int8(eff[mod])
+			continue
+		case 1:
+			viaBase = true
+		case 2:
+			viaBase = false
+		}
+		if viaBase {
 			v.M[mod] = 0 // X: base carries the value
 			v.M[b] = int8(eff[mod])
 		} else {
